@@ -103,7 +103,11 @@ impl Seed {
             // 1 byte for the discriminator
             Self::Uninitialized => 0,
             // 1 byte for the discriminator, 1 byte for the length of the bytes, then the raw bytes
-            Self::Literal { bytes } => 1 + 1 + bytes.len() as u8,
+            // (saturating, so that an over-long literal is reported as too large
+            // by the packing functions instead of overflowing)
+            Self::Literal { bytes } => u8::try_from(bytes.len())
+                .unwrap_or(u8::MAX)
+                .saturating_add(1 + 1),
             // 1 byte for the discriminator, 1 byte for the index, 1 byte for the length
             Self::InstructionData { .. } => 1 + 1 + 1,
             // 1 byte for the discriminator, 1 byte for the index
